@@ -1,6 +1,7 @@
 (* log_driver.ml — C05: model side and oracle.  The oracle judges the IMPLEMENTATION's observation by the spec
    (LogSpec.spec_prog): everything that reached the formatter and the sinks — which records, with what severity, tag
    and message, to which sequence members, in which order — must be exactly what the spec prescribes. *)
+(* delivery events and the threshold getters (which thresholds are in force is part of "the configured runtime filter") *)
 let delivery_part l = List.filter (fun t -> t <> "" && t.[0] <> 'C' && t.[0] <> 'K') l
 let oracle (case : string list) (obs : string) : bool =
   delivery_part (tokens_of_line obs) = delivery_part (spec_tokens case)
